@@ -1268,7 +1268,7 @@ pub fn check_on(tier: Tier, only: Option<Vec<Selected>>) -> i32 {
     std::fs::create_dir_all(&hdr).expect("mkdir");
     let thorough = tier == Tier::Thorough;
     let limit: usize = std::env::var("PDLMC_LIMIT").ok().and_then(|s| s.parse().ok()).unwrap_or(usize::MAX);
-    let stride: usize = std::env::var("PDLMC_CXX_STRIDE").ok().and_then(|s| s.parse().ok()).unwrap_or(if thorough { 4 } else { 4 });
+    let stride: usize = std::env::var("PDLMC_CXX_STRIDE").ok().and_then(|s| s.parse().ok()).unwrap_or(if thorough { 8 } else { 4 });
     let group: usize = std::env::var("PDLMC_CXX_GROUP").ok().and_then(|s| s.parse().ok()).unwrap_or(12);
     // the C++ tier is the most expensive per state (two sanitizer builds): quick compiles every
     // `stride`-th selected state (fixed stride through the BFS order, reported)
